@@ -243,6 +243,8 @@ class Path:
         self.state = None
         self.loop_start = None
         self.loop_end = None
+        self.loop_start_id = None
+        self.loop_end_id = None
 
 
 _PURE_BUILTINS = {'list', 'zip', 'tuple', 'set', 'sorted', 'enumerate', 'sum', 'str', 'int', 'float', 'max', 'min', 'abs', 'any', 'all', 'dict', 'repr',
@@ -990,6 +992,13 @@ class Frame:
                 out[k] = z3.IntVal(v)
             elif isinstance(v, SArr):
                 out[k] = (v.a, v.n)
+            elif isinstance(v, Obj):
+                # fields of local objects (self._residuals, self._ir, ...)
+                for fk, fv in v.fields.items():
+                    if isinstance(fv, SV):
+                        out[f'{k}.{fk}'] = fv.t
+                    elif isinstance(fv, SArr):
+                        out[f'{k}.{fk}'] = (fv.a, fv.n)
         return out
 
     def _loop(self, s, kind, iterable=None):
@@ -1026,6 +1035,7 @@ class Frame:
             cond = itv.t < iterable.n
         v0 = spec.variant(view) if spec.variant else None
         self.I.path.loop_start = self._state_snapshot()
+        self.I.path.loop_start_id = ordinal
         if self.I.decide(cond):
             if kind == 'for':
                 itv = self.env['__it%d' % ordinal]
@@ -1040,6 +1050,7 @@ class Frame:
                 return
             view = EnvView(self)
             self.I.path.loop_end = self._state_snapshot()
+            self.I.path.loop_end_id = ordinal
             self.I.oblige('inv-preserve', label, spec.invariant(view), s.lineno)
             if v0 is not None:
                 v1 = spec.variant(view)
